@@ -801,7 +801,6 @@ pub struct RunOut {
     /// (class, detail) — at most one entry per class and run
     pub fails: Vec<(String, String)>,
     pub stats: BTreeMap<String, u64>,
-    pub trace: Vec<String>,
     /// `rx` simulation: the explicit op list that was executed (generated in the loop or replayed)
     pub ops: Vec<String>,
 }
@@ -2164,8 +2163,10 @@ impl E2e {
         }
         let desc = format!("{} {}", self.eps[0].describe(), self.eps[1].describe());
         self.tr(format!("end: {} complete={} {}", reason, complete, desc));
+        self.out.bump("runs_e2e", 1);
         if complete {
             self.out.bump("completed", 1);
+            self.out.bump("completed_e2e", 1);
         } else if timeouts {
             self.out.bump("ended_with_timeout_configured", 1);
         } else if self.out.fails.iter().any(|(c, _)| c == "c02-timewait-discards-unread" || c == "c03-poll-never-returns") {
@@ -2198,6 +2199,15 @@ impl E2e {
         self.out.bump("runs_fast_retransmit", fr);
         self.out.bump("runs_wrap_2_31", w31);
         self.out.bump("runs_wrap_2_32", w32);
+        self.out.bump("runs_ethernet", cfg.eth as u64);
+        self.out.bump("runs_ipv6", cfg.v6 as u64);
+        self.out.bump("runs_simultaneous_open", cfg.simopen as u64);
+        self.out.bump("runs_early_poll_probe", cfg.probe as u64);
+        let cc = |k: u8| cfg.ep.iter().any(|e| e.cc == k) as u64;
+        self.out.bump("runs_cc_reno", cc(1));
+        self.out.bump("runs_cc_cubic", cc(2));
+        self.out.bump("runs_window_scaling", cfg.ep.iter().any(|e| e.rx > 65535) as u64);
+        self.out.bump("runs_tiny_rx_buffer", cfg.ep.iter().any(|e| e.rx < 64) as u64);
         self.out
     }
 }
@@ -2891,6 +2901,7 @@ impl RxSim {
 
     pub fn finish(mut self) -> RunOut {
         self.out.bump("runs", 1);
+        self.out.bump("runs_rx", 1);
         if self.finished || self.read as i64 == self.f_len {
             self.out.bump("completed", 1);
         }
